@@ -322,6 +322,11 @@ func (g *G) dirent(s *state.Store, verb api.KVOp, idx uint64) structs.DirEntry {
 		d.ModifyIndex = g.kvIndex(s, d.Key, idx)
 	case api.KVLock, api.KVUnlock, api.KVCheckSession:
 		d.Session = g.sessionRef()
+	case api.KVSet:
+		// a client echoing back an entry it read may leave the Session field filled in
+		if r.Chance(15) {
+			d.Session = g.sessionRef()
+		}
 	case api.KVDeleteTree, api.KVGetTree:
 		d.Key = core.Pick(r, Prefixes)
 	}
